@@ -131,6 +131,7 @@ fn main() {
             x_all(&mut rep, Mode::C01, tier);
             pump_family(&mut rep, Mode::C01, tier);
             history::run(&mut rep, Mode::C01, tier);
+            deep_family(&mut rep, Mode::C01, tier);
             option_presets(&mut rep);
             rep.rule = "a state is an input prefix (node of the execution tree); every node is executed on the real parser through every entry point (13 text entry points on core nodes; parse_str/parse_slice/observed iterator on deviation nodes; parse_slice/parse_slice_with on byte nodes) and the verdict compared with R-pda (+ surrogate well-formedness, + core::str::from_utf8 for bytes); children only below viable prefixes, post-mortem horizon 2 below dead nodes; non-trivial = distinct inputs".into();
             rep.assumptions.push("strict acceptance = RFC 8259 grammar AND every \\u escape sequence denotes scalar values (no unpaired surrogate), the reading under which C01, C07 and C12 are mutually consistent".into());
@@ -146,6 +147,7 @@ fn main() {
             x_all(&mut rep, Mode::C07, tier);
             pump_family(&mut rep, Mode::C07, tier);
             history::run(&mut rep, Mode::C07, tier);
+            deep_family(&mut rep, Mode::C07, tier);
             rep.rule = "every rejected node (including post-mortem nodes) of the trees: Unexpected(p,c) must carry the longest viable prefix length and the character there; InvalidUtf8 the offset of the first ill-formed sequence unless a syntax error lies strictly before it; surrogate errors the offending code units and a span inside the escape sequence(s) up to the detection point; all offsets character boundaries within the input; non-trivial = distinct rejected inputs".into();
             rep.assumptions.push("span of a surrogate error may extend to the point where the fault becomes detectable (DESIGN A.7.1)".into());
             rep.finish()
